@@ -250,6 +250,9 @@ for _pid in ('C11', 'C13'):
 for _pid in ('C05', 'C08'):
     CLAIMS[_pid]['text'] += (' %s_source_header_sets: hopByHopHeaders, removeHopByHopHeaders and updateStoredHeaders are re-derived from internal/helpers.go by translate/maps.go before every build '
                              'and proved equal to hop_by_hop_headers, remove_hop_by_hop, update_stored_headers (Proofs/TieHeaderSets.v).' % _pid)
+CLAIMS['C11']['text'] += ' C11_source_header_writers: CacheStatus.ApplyTo and SetAgeHeader re-derived from the source (translate/hdrprog.go) and proved equal to apply_status and the Age field of the model.'
+CLAIMS['C02']['text'] += ' C02_source_conditional_request: withConditionalHeaders re-derived from helpers.go and proved equal to with_conditional_headers.'
+CLAIMS['C08']['text'] += ' C08_source_fix_date_header: FixDateHeader re-derived from internal/clock.go and proved equal to fix_date_header.'
 for _pid in ('C07', 'C19'):
     CLAIMS[_pid]['text'] += (' %s_source_invalidation: InvalidateCache and invalidateLocationHeaders (which keys are deleted, in which order, after which reads of the store, none twice) '
                              'are re-derived from internal/cacheinvalidator.go by translate/inval.go before every build and proved equal up to peq to invalidate_cache (Proofs/TieInval.v).' % _pid)
